@@ -6,6 +6,10 @@
   and of the key construction they share: `qcore.caching.get_args_tuple` / `get_kwargs_defaults`
   (qcore/caching.py:323-354) over the argument-name lists AS WRITTEN in tools.py (`argspec.args[1:] + kwonlyargs` for methods, `argspec.args + kwonlyargs` for alru_cache).
 
+  The wrapped function may collect further positional arguments (`Sig.varargs`: `def f(a, b=0, *rest, k=0)`): the repaired
+  key construction (`argsKey`) keeps the overflow apart from the named parameters.
+  NOT modelled: `**kwargs`, positional-only parameters.
+
   A history is a list of top-level operations, each run to completion before the next one starts (the body may
   block on a batch in between - invisible at this level).  Values are identity tokens (Nat); parameter names are
   tokens whose numeric order is the alphabetical order of the names (get_args_tuple sorts leftover keywords).
@@ -23,12 +27,13 @@ namespace AsynqModel.Cache
 
 abbrev Name := Nat
 
-/-- `inspect.getfullargspec(get_original_fn(fn))` of the wrapped function (no *args / **kwargs) -/
+/-- `inspect.getfullargspec(get_original_fn(fn))` of the wrapped function (no **kwargs, no positional-only parameters) -/
 structure Sig where
   args : List Name                    -- argspec.args (for a method this includes `self`)
   defaults : List Nat                 -- argspec.defaults: defaults of the LAST `defaults.length` entries of `args`
   kwonly : List Name                  -- argspec.kwonlyargs
   kwonlyDefaults : List (Name × Nat)  -- argspec.kwonlydefaults
+  varargs : Bool                      -- argspec.varargs is not None: `def f(a, b=0, *rest, k=0)`
   deriving Repr, DecidableEq, Inhabited
 
 /-- one way of spelling a call: positional values and keyword arguments (a dict: names are distinct) -/
@@ -146,6 +151,17 @@ def bind (pos kwonly : List Name) (dflts : List (Name × Nat)) (c : Call) : Opti
   else if c.kwargs.any (fun p => (pos.take c.args.length).contains p.1) then none    -- multiple values for argument
   else (bindRest c.kwargs dflts (pos.drop c.args.length ++ kwonly)).map (c.args ++ ·)
 
+/-- binding to `def f(pos.., *rest, kwonly..)` when `varargs`: positional arguments beyond `pos` are collected by
+    `*rest` instead of being an error.  The normalised arguments are the values of the NAMED parameters (`pos`, then
+    `kwonly`) followed by the elements of `rest` (unambiguous: the number of named parameters is fixed by the signature).
+    Without `varargs`, and for every call that does not overflow, it is `bind`. -/
+def bindV (varargs : Bool) (pos kwonly : List Name) (dflts : List (Name × Nat)) (c : Call) : Option (List Nat) :=
+  if !varargs && pos.length < c.args.length then none                                -- too many positional arguments
+  else if c.kwargs.any (fun p => !(pos ++ kwonly).contains p.1) then none            -- unexpected keyword argument
+  else if c.kwargs.any (fun p => (pos.take c.args.length).contains p.1) then none    -- multiple values for argument
+  else (bindRest c.kwargs dflts (pos.drop c.args.length ++ kwonly)).map
+    fun vs => c.args.take pos.length ++ vs ++ c.args.drop pos.length
+
 /-! ## The key functions of the three decorators -/
 
 /-- `key_fn` of alru_cache: the default, or one of a small menu of custom functions of the raw `(args, kwargs)` -/
@@ -162,15 +178,25 @@ def customKey (ks : KeySpec) (c : Call) : Key :=
   | .raw => c.args.map .val ++ (sortKw c.kwargs).map fun p => .pair p.1 p.2
   | _ => []
 
-/-- alru_cache, tools.py:228-237: `arg_names = argspec.args + argspec.kwonlyargs`; `wrapper(*args, **kwargs)` receives
-    all arguments -/
+/-- `_args_cache_key(argspec, arg_names, kwargs_defaults)` of the REPAIRED tools.py: without `*rest` the key is
+    `get_args_tuple(args, kwargs, arg_names, kwargs_defaults)` as before; with `*rest` it is the pair
+    `(get_args_tuple(args[:n], kwargs, ..), tuple(args[n:]))`, `n` = number of named positional parameters.  The pair is
+    modelled as the concatenation (injective: the first component has `arg_names.length` plain values, possibly followed
+    by `(name, value)` pairs; the second has plain values only) -/
+def argsKey (s : Sig) (pos : List Name) (c : Call) : Option Key :=
+  if s.varargs then
+    (getArgsTuple (c.args.take pos.length) c.kwargs (pos ++ s.kwonly) (kwargsDefaults s)).map
+      (· ++ (c.args.drop pos.length).map .val)
+  else getArgsTuple c.args c.kwargs (pos ++ s.kwonly) (kwargsDefaults s)
+
+/-- alru_cache: `arg_names = argspec.args + argspec.kwonlyargs`; `wrapper(*args, **kwargs)` receives all arguments -/
 def alruKey (ks : KeySpec) (s : Sig) (c : Call) : Option Key :=
   match ks with
-  | .default => getArgsTuple c.args c.kwargs (s.args ++ s.kwonly) (kwargsDefaults s)
+  | .default => argsKey s s.args c
   | ks => some (customKey ks c)
 
-/-- what the wrapped function of alru_cache binds: every parameter -/
-def alruBind (s : Sig) (c : Call) : Option (List Nat) := bind s.args s.kwonly (kwargsDefaults s) c
+/-- what the wrapped function of alru_cache binds: every parameter (and `*rest`, if it has one) -/
+def alruBind (s : Sig) (c : Call) : Option (List Nat) := bindV s.varargs s.args s.kwonly (kwargsDefaults s) c
 
 /-- the reference key of alru_cache: key_fn's result when one is given, else the normalised arguments -/
 def alruRefKey (ks : KeySpec) (s : Sig) (c : Call) : Option Key :=
@@ -180,11 +206,11 @@ def alruRefKey (ks : KeySpec) (s : Sig) (c : Call) : Option Key :=
 
 /-- acached_per_instance, tools.py:176-183: `arg_names = argspec.args[1:] + kwonlyargs`, and `new_fun(self, *args, **kwargs)`
     passes the arguments WITHOUT self -/
-def perInstKey (s : Sig) (c : Call) : Option Key :=
-  getArgsTuple c.args c.kwargs (s.args.drop 1 ++ s.kwonly) (kwargsDefaults s)
+def perInstKey (s : Sig) (c : Call) : Option Key := argsKey s (s.args.drop 1) c
 
 /-- what the method binds once `self` is taken by the instance -/
-def perInstBind (s : Sig) (c : Call) : Option (List Nat) := bind (s.args.drop 1) s.kwonly (kwargsDefaults s) c
+def perInstBind (s : Sig) (c : Call) : Option (List Nat) :=
+  bindV s.varargs (s.args.drop 1) s.kwonly (kwargsDefaults s) c
 
 def perInstRefKey (s : Sig) (c : Call) : Option Key := (perInstBind s c).map (·.map .val)
 
